@@ -185,9 +185,21 @@ pub fn check(case: &Case, p: &mut Probe) -> Check {
     // history: in a third of the cases the constructor first sees, on the same thread, the zero
     // matrix of the same dimensions (singular tail: must be rejected, and must leave nothing behind)
     if case.msg_seed % 3 == 1 {
-        let z = ldpc_toolbox::sparse::SparseMatrix::new(r, n);
-        let w = guarded(|| Encoder::from_h(&z)).map_err(|e| Fail::new("from_h-panic", format!("Encoder::from_h panicked on the {r} x {n} zero matrix: {e}")))?;
-        ensure!(w.is_err(), "accepted-singular", "Encoder::from_h accepted the {r} x {n} zero matrix");
+        // a matrix of the same dimensions with content and a singular tail: every row a copy of the
+        // case's first non-empty row (rank <= 1); for a single row, the zero matrix
+        let mut z = ldpc_toolbox::sparse::SparseMatrix::new(r, n);
+        if r >= 2 {
+            let rows = h.row_lists();
+            if let Some(src) = rows.iter().find(|l| !l.is_empty()) {
+                for i in 0..r {
+                    for &c in src {
+                        z.insert(i, c);
+                    }
+                }
+            }
+        }
+        let w = guarded(|| Encoder::from_h(&z)).map_err(|e| Fail::new("from_h-panic", format!("Encoder::from_h panicked on a {r} x {n} matrix of rank <= 1: {e}")))?;
+        ensure!(w.is_err(), "accepted-singular", "Encoder::from_h accepted a {r} x {n} matrix of rank <= 1 (all rows equal)");
         p.class("after-a-rejected-call");
     }
     let enc = guarded(|| Encoder::from_h(&hs)).map_err(|e| Fail::new("from_h-panic", format!("Encoder::from_h panicked: {e}")))?;
